@@ -11,7 +11,8 @@ def over_stack(rng):
     layers = []
     for i in range(nl):
         r = rng.random()
-        key = '~k' if r < 0.4 else 'k'
+        # (a key can be overriding and constant at once: both markers on one key, or one marker per layer)
+        key = '~k' if r < 0.4 else (rng.choice(['~=k', '=~k']) if r < 0.5 else ('=k' if r < 0.55 else 'k'))
         es = [(S(key), V.plain_value(rng, 2))]
         if rng.random() < 0.5:
             es.append((S(rng.choice(['j', '~j'])), V.plain_value(rng, 1)))
@@ -40,7 +41,7 @@ def run(tier, rng, C):
                 # the template starts out as an empty mapping (or with other members only)
                 es = [(S('tmpl'), rng.choice([('m', []), M(('o', I(1)))]))]
             else:
-                es = [(S('tmpl'), M((rng.choice(['~b', '~b', 'b']), MC.KINDS[rng.choice(kinds)]())))]
+                es = [(S('tmpl'), M((rng.choice(['~b', '~b', 'b', '~b', '~b', 'b', '=b', '~=b', '=~b']), MC.KINDS[rng.choice(kinds)]())))]
             layers.append(('m', (first if j == 0 else []) + es))
         layers.append(M(('target', S('${tmpl}'))))
         stacks.append(layers)
@@ -49,6 +50,6 @@ def run(tier, rng, C):
     for c in cases:
         c['nontrivial'] = V.has_marker(c['layers'], '~')
     rule = ('exhaustive kind stacks containing an override marker (incl. override after a type conflict, override with no '
-            'earlier value, kind changes) + %d random stacks with ~k at random layers and depth 0-2 with sibling keys; '
+            'earlier value, kind changes) + %d random stacks with ~k (sometimes ~=k, =~k, =k) at random layers and depth 0-2 with sibling keys; '
             'non-trivial = an override marker present; plus sequences of 3-5 layers giving one nested key values of random kinds (nulls, empty containers); oracle = extracted Spec/DeepMerge.v' % n)
     return C.standard_run(cases, rule, key_fn=lambda c, m, i, r: 'model-impl-differ', extra_oracle=MC.spec_oracle(C))
